@@ -24,6 +24,15 @@
 (* kind, default, admissible values, values to refuse, admissible and      *)
 (* inadmissible file contents) is extracted by the driver from             *)
 (* default_parameters.py and handed over as the constant Table.            *)
+(* A token carries the class of the value (b / i / f / s): "i:7" and       *)
+(* "f:7.0" are different values, so is "f:99999.5" and "i:99999".  The     *)
+(* admissible values of a parameter are those its CONDITIONS accept,       *)
+(* whatever the class of its default: a parameter declared int whose only  *)
+(* condition is "a number" (missing_data) admits "f:99999.5" and "f:7.0",  *)
+(* a parameter declared float admits "i:7"; where the conditions demand an *)
+(* integer, "f:7.0" is among the values to refuse.  RoundTrip therefore    *)
+(* says in particular that nothing is converted to the class of the        *)
+(* default on the way through the file.                                    *)
 (*                                                                         *)
 (* Properties checked on the model:                                        *)
 (*   RoundTrip     for every reachable parameter set p:                    *)
